@@ -209,6 +209,78 @@ theorem prev_is_last_fire (s : TSched) (h : List R3) :
 
 /-! ## Constructor guards -/
 
+/-! ### Raising callbacks: an interval is restarted only when *every* callback has run -/
+
+/-- Without a raising callback `updateF` is `update`. -/
+theorem updateF_none (s : TSched) (r1 r2 r3 : Rat) :
+    (s.updateF r1 r2 none).st = (s.update true r1 r2 r3).st ∧
+    (s.updateF r1 r2 none).ran = (s.update true r1 r2 r3).ran ∧ (s.updateF r1 r2 none).raised = false := by
+  simp only [TSched.updateF, TSched.update]
+  split <;> simp
+
+/-- **A raising callback never restarts the interval**: the scheduler is left exactly as it was, so
+the elapsed interval is still due at the next update; the callbacks before the raising one ran once
+each, in order, the ones after it did not. -/
+theorem raise_keeps_interval (s : TSched) (r1 r2 : Rat) (f : Option Nat)
+    (h : (s.updateF r1 r2 f).raised = true) :
+    (s.updateF r1 r2 f).st = s ∧ s.due r1 = true ∧
+      ∃ k, f = some k ∧ k < s.cbs.length ∧ (s.updateF r1 r2 f).ran = s.cbs.take (k + 1) := by
+  simp only [TSched.updateF] at h ⊢
+  split at h
+  · rename_i hd
+    cases f with
+    | none => simp at h
+    | some k =>
+      by_cases hk : k < s.cbs.length
+      · refine ⟨by simp [hk, hd], hd, k, rfl, hk, by simp [hk, hd]⟩
+      · simp [hk] at h
+  · simp at h
+
+/-- **Whenever the interval is restarted, all callbacks have been run** — also in the presence of
+raising callbacks. -/
+theorem restart_implies_all_ran (s : TSched) (r1 r2 : Rat) (f : Option Nat)
+    (h : (s.updateF r1 r2 f).st ≠ s) :
+    (s.updateF r1 r2 f).ran = s.cbs ∧ (s.updateF r1 r2 f).raised = false := by
+  simp only [TSched.updateF] at h ⊢
+  split
+  · cases f with
+    | none => simp
+    | some k =>
+      by_cases hk : k < s.cbs.length
+      · simp_all
+      · simp [hk]
+  · simp_all
+
+/-- A still-due interval fires again at the next update that does not raise. -/
+theorem due_again_after_raise (s : TSched) (r1 r2 r1' r2' : Rat) (f : Option Nat)
+    (h : (s.updateF r1 r2 f).raised = true) (hm : r1 ≤ r1') :
+    ((s.updateF r1 r2 f).st.updateF r1' r2' none).ran = s.cbs := by
+  obtain ⟨hst, hd, _⟩ := raise_keeps_interval s r1 r2 f h
+  rw [hst]
+  have hd' : s.due r1' = true := by
+    rw [due_iff] at hd ⊢
+    linarith
+  simp [TSched.updateF, hd']
+
+/-- Step scheduler: a raising callback leaves the counter at or above the interval. -/
+theorem step_raise_keeps_due (s : SSched) (f : Option Nat) (h : (s.updateF f).raised = true) :
+    (s.updateF f).st.steps = s.steps + 1 ∧ (s.updateF f).st.due = true := by
+  simp only [SSched.updateF] at h ⊢
+  split at h
+  · rename_i hd
+    cases f with
+    | none => simp at h
+    | some k =>
+      by_cases hk : k < s.cbs.length
+      · refine ⟨by simp [hk, hd], ?_⟩
+        simp only [hk, hd, if_true]
+      · simp [hk] at h
+  · simp at h
+
+example : ((⟨10, 0, [1, 2, 3]⟩ : TSched).updateF 11 12 (some 1)).ran = [1, 2] ∧
+    ((⟨10, 0, [1, 2, 3]⟩ : TSched).updateF 11 12 (some 1)).st.prev = 0 := by
+  norm_num [TSched.updateF, TSched.due]
+
 theorem time_ctor_guard (iv : Rat) (cbs : List Nat) (r0 : Rat) :
     TSched.new iv cbs r0 = if iv < 0 then .error .valueError else .ok ⟨iv, r0, cbs⟩ := rfl
 
